@@ -30,14 +30,14 @@ if len(sys.argv) > 1 and sys.argv[1] == "--worker":
     sys.exit(0)
 wt, n = sys.argv[1], sys.argv[2]
 head = subprocess.run("git -C /repo rev-parse HEAD", shell=True, stdout=subprocess.PIPE).stdout.decode().strip()
-for m in sys.argv[3:]:
+for m in map(os.path.abspath, sys.argv[3:]):
     mid = os.path.basename(m.rstrip("/"))
     subprocess.run(f"git -C {wt} reset -q --hard {head} && git -C {wt} clean -fdq", shell=True)
     r = subprocess.run(f"git -C {wt} apply --3way {m}/patch.diff", shell=True, stdout=subprocess.PIPE, stderr=subprocess.STDOUT)
     if r.returncode != 0:
         print(json.dumps(dict(mutant=mid, applied=False))); sys.stdout.flush(); continue
     k = subprocess.run(f"cd /verif && .venv/bin/python tools_mixed_eval.py --worker {n}", shell=True, stdout=subprocess.PIPE, stderr=subprocess.STDOUT,
-                       env=dict(os.environ, VERIF_REPO=wt))
+                       env=dict(os.environ, VERIF_REPO=wt, PYTHONPATH=f"{wt}:/verif", PYTHONDONTWRITEBYTECODE="1"))
     res = [l for l in k.stdout.decode().splitlines() if l.startswith("RESULT ")]
     print(json.dumps(dict(mutant=mid, result=json.loads(res[0][7:]) if res else k.stdout.decode()[-400:]))); sys.stdout.flush()
     subprocess.run(f"git -C {wt} reset -q --hard {head} && git -C {wt} clean -fdq", shell=True)
